@@ -17,6 +17,8 @@ spelling, the analysed module is first rewritten, in memory, by transformations 
                                the same block, with nothing it reads rebound or changed in place in between, is replaced by the
                                expression (copy propagation): `grid = self.__hdr; x = grid['nx']` is `x = self.__hdr['nx']`
   N5  new accumulation loops   `X = []; for T in IT: X.append(E)` is `X = [E for T in IT]` where a comprehension of the pinned function was unrolled
+  N6  branch shapes            `if not T: B else: A`, `if not T: continue` + rest, `if T1 and T2:` are put back into the pinned function's own
+                               `if T: A else: B`, `if T: rest`, `if T1: if T2:` where the pinned function has that test
   N3  renamed locals           locals of a function are renamed toward the names the pinned function uses for them.  The pairing is
                                found by aligning the statements of both versions (difflib over statement shapes with locals
                                abstracted) and voting; it is *applied* only if it is injective and the new name occurs nowhere in the
@@ -1178,7 +1180,7 @@ def propagate_new_temporaries(fn, pinfn):
     pin_ids = all_ids(pinfn) if pinfn is not None else set()
     params = set(params_of(fn))
     done = 0
-    for _ in range(8):
+    for _ in range(200):
         parent, block_of = {}, {}
         for n in ast.walk(fn):
             for c in ast.iter_child_nodes(n):
@@ -1381,6 +1383,119 @@ def loops_to_comprehensions(fn, pinfn):
     return done
 
 
+# -------------------------------------------------------------------------------------------- N6: branch shapes of the pinned code
+def _neg(e):
+    if isinstance(e, ast.UnaryOp) and isinstance(e.op, ast.Not):
+        return e.operand
+    if isinstance(e, ast.Compare) and len(e.ops) == 1:
+        inv = {ast.Eq: ast.NotEq, ast.NotEq: ast.Eq, ast.Is: ast.IsNot, ast.IsNot: ast.Is, ast.In: ast.NotIn, ast.NotIn: ast.In}
+        if type(e.ops[0]) in inv:
+            return ast.copy_location(ast.Compare(left=e.left, ops=[inv[type(e.ops[0])]()], comparators=e.comparators), e)
+    if isinstance(e, ast.BoolOp):
+        # De Morgan, so that `not a and not b` is recognised as the negation of `a or b`
+        op = ast.Or() if isinstance(e.op, ast.And) else ast.And()
+        return ast.copy_location(ast.BoolOp(op=op, values=[_neg(v) for v in e.values]), e)
+    return ast.copy_location(ast.UnaryOp(op=ast.Not(), operand=e), e)
+
+
+def _test_spellings(e):
+    """spellings under which a test is looked up: itself and its De Morgan forms"""
+    out = set([ast.unparse(e)])
+    try:
+        out.add(ast.unparse(_neg(_neg(e))))
+    except Exception:
+        pass
+    return out
+
+
+def branch_shapes(fn, pinfn):
+    """Three rewrites, each an identity on behaviour, applied only where they restore a test the pinned function has:
+      flip    if not T: B else: A                ->  if T: A else: B
+      guard   if not T: continue  ; REST         ->  if T: REST               (REST = the remainder of the loop body)
+              if not T: return    ; REST         ->  if T: REST               (function level, bare return, REST ends the function)
+      split   if T1 and T2: A  (no else)         ->  if T1: if T2: A          (the pinned function nests exactly these two tests)
+    -> number of rewrites"""
+    if pinfn is None:
+        return 0
+    pin_tests = set()
+    pin_nested = set()
+    for n in ast.walk(pinfn):
+        if isinstance(n, ast.If):
+            pin_tests |= _test_spellings(n.test)
+            if not n.orelse and len(n.body) == 1 and isinstance(n.body[0], ast.If) and not n.body[0].orelse:
+                pin_nested.add((ast.unparse(n.test), ast.unparse(n.body[0].test)))
+    pin_ifassign, pin_ifexp = set(), set()
+    for n in ast.walk(pinfn):
+        if isinstance(n, ast.If) and len(n.body) == 1 and len(n.orelse) == 1 and isinstance(n.body[0], ast.Assign) and isinstance(n.orelse[0], ast.Assign) \
+                and len(n.body[0].targets) == 1 and ast.dump(n.body[0].targets[0]) == ast.dump(n.orelse[0].targets[0]):
+            for t_ in _test_spellings(n.test) | _test_spellings(_neg(n.test)):
+                pin_ifassign.add((t_, ast.unparse(n.body[0].targets[0])))
+        if isinstance(n, ast.Assign) and isinstance(n.value, ast.IfExp) and len(n.targets) == 1:
+            for t_ in _test_spellings(n.value.test) | _test_spellings(_neg(n.value.test)):
+                pin_ifexp.add((t_, ast.unparse(n.targets[0])))
+    done = 0
+
+    def known(e):
+        return bool(_test_spellings(e) & pin_tests)
+
+    def visit(body, in_loop, at_function_end):
+        nonlocal done
+        i = 0
+        while i < len(body):
+            st = body[i]
+            if isinstance(st, SCOPES):
+                i += 1
+                continue
+            # a conditional expression the pinned function spells as if/else (and the reverse)
+            if isinstance(st, ast.Assign) and isinstance(st.value, ast.IfExp) and len(st.targets) == 1 \
+                    and (ast.unparse(st.value.test), ast.unparse(st.targets[0])) in pin_ifassign and (ast.unparse(st.value.test), ast.unparse(st.targets[0])) not in pin_ifexp:
+                new_if = ast.copy_location(ast.If(test=st.value.test, body=[ast.copy_location(ast.Assign(targets=st.targets, value=st.value.body, lineno=st.lineno), st)],
+                                                  orelse=[ast.copy_location(ast.Assign(targets=copy.deepcopy(st.targets), value=st.value.orelse, lineno=st.lineno), st)]), st)
+                body[i] = st = new_if
+                done += 1
+            elif isinstance(st, ast.If) and len(st.body) == 1 and len(st.orelse) == 1 and isinstance(st.body[0], ast.Assign) and isinstance(st.orelse[0], ast.Assign) \
+                    and len(st.body[0].targets) == 1 and ast.dump(st.body[0].targets[0]) == ast.dump(st.orelse[0].targets[0]) \
+                    and (ast.unparse(st.test), ast.unparse(st.body[0].targets[0])) in pin_ifexp and (ast.unparse(st.test), ast.unparse(st.body[0].targets[0])) not in pin_ifassign:
+                body[i] = st = ast.copy_location(ast.Assign(targets=st.body[0].targets, value=ast.copy_location(ast.IfExp(test=st.test, body=st.body[0].value, orelse=st.orelse[0].value), st), lineno=st.lineno), st)
+                done += 1
+            if isinstance(st, ast.If):
+                is_elif_chain = len(st.orelse) == 1 and isinstance(st.orelse[0], ast.If)
+                # flip
+                if st.orelse and not is_elif_chain and not known(st.test) and known(_neg(st.test)) \
+                        and not (len(st.body) == 1 and isinstance(st.body[0], ast.If)):
+                    st.test, st.body, st.orelse = _neg(st.test), st.orelse, st.body
+                    done += 1
+                # guard
+                elif not st.orelse and len(st.body) == 1 and not known(st.test) and known(_neg(st.test)) and body[i + 1:]:
+                    rest = body[i + 1:]
+                    g = st.body[0]
+                    last_of_block = True
+                    if (isinstance(g, ast.Continue) and in_loop) or \
+                            (isinstance(g, ast.Return) and (g.value is None or (isinstance(g.value, ast.Constant) and g.value.value is None)) and at_function_end
+                             and not _contains(rest, ast.Return)):
+                        st.test, st.body = _neg(st.test), rest
+                        del body[i + 1:]
+                        done += 1
+                # split
+                elif not st.orelse and isinstance(st.test, ast.BoolOp) and isinstance(st.test.op, ast.And) and len(st.test.values) == 2 \
+                        and (ast.unparse(st.test.values[0]), ast.unparse(st.test.values[1])) in pin_nested:
+                    inner = ast.copy_location(ast.If(test=st.test.values[1], body=st.body, orelse=[]), st)
+                    st.test, st.body = st.test.values[0], [inner]
+                    done += 1
+            for fld in ('body', 'orelse', 'finalbody'):
+                sub = getattr(st, fld, None)
+                if isinstance(sub, list) and sub and isinstance(sub[0], ast.stmt):
+                    loop = isinstance(st, (ast.For, ast.While)) and fld == 'body'
+                    visit(sub, loop or (in_loop and not isinstance(st, (ast.For, ast.While))), at_function_end and i == len(body) - 1 and isinstance(st, ast.If))
+            for h in getattr(st, 'handlers', []) or []:
+                visit(h.body, in_loop, False)
+            i += 1
+    visit(fn.body, False, True)
+    if done:
+        ast.fix_missing_locations(fn)
+    return done
+
+
 # ----------------------------------------------------------------------------------------------------------------------- driver
 def normalize(relpath, text, tree):
     """rewrite `tree` (parsed from `text`) in place; -> statistics dict (empty when nothing was done)"""
@@ -1403,7 +1518,7 @@ def normalize(relpath, text, tree):
         stats['not_inlined'] = sorted(set('%s (%s)' % f for f in inl.failed))
     pfun = index_functions(pin)
     cfun = index_functions(tree)
-    nl = nr = nt = nc = 0
+    nl = nr = nt = nc = nb = 0
     for q, (fn, body, cls) in cfun.items():
         p = pfun.get(q)
         if p is None:
@@ -1413,11 +1528,14 @@ def normalize(relpath, text, tree):
         # renaming first: a local that merely changed its name is not a new temporary
         nr += len(rename_toward(fn, p[0]))
         nl += inline_local_lambdas(fn, p[0])
+        nb += branch_shapes(fn, p[0])
         nc += loops_to_comprehensions(fn, p[0])
         nt += propagate_new_temporaries(fn, p[0])
         nr += len(rename_toward(fn, p[0]))
     if nl:
         stats['local_helpers'] = nl
+    if nb:
+        stats['branches'] = nb
     if nc:
         stats['comprehensions'] = nc
     if nt:
